@@ -75,7 +75,7 @@ type world struct {
 	hits  *hitLog
 
 	mu        sync.Mutex
-	instances map[string][]*fakeController
+	instances_ map[string][]*fakeController
 	failNext  map[string]bool
 	removed   map[schema.GroupVersionKind]bool // RemoveInformer was issued for this kind at some point
 }
@@ -84,7 +84,7 @@ func newWorld() *world {
 	s := verifsim.New(verifsim.NewScheme())
 	y := newSched()
 	fc := newFakeCache(s.Scheme, y)
-	w := &world{sim: s, y: y, cache: fc, hits: &hitLog{}, instances: map[string][]*fakeController{}, failNext: map[string]bool{}, removed: map[schema.GroupVersionKind]bool{}}
+	w := &world{sim: s, y: y, cache: fc, hits: &hitLog{}, instances_: map[string][]*fakeController{}, failNext: map[string]bool{}, removed: map[schema.GroupVersionKind]bool{}}
 	w.infs = &yieldingInfs{InformerTrackingCache: engine.TrackInformers(fc, s.Scheme), y: y}
 	mgr := &fakeManager{scheme: s.Scheme, elected: make(chan struct{})}
 	close(mgr.elected)
@@ -99,7 +99,7 @@ func (w *world) newControllerFn(name string, _ manager.Manager, _ kcontroller.Op
 	defer w.mu.Unlock()
 	fc := &fakeController{name: name, y: w.y, failing: w.failNext[name]}
 	w.failNext[name] = false
-	w.instances[name] = append(w.instances[name], fc)
+	w.instances_[name] = append(w.instances_[name], fc)
 	return fc, nil
 }
 
@@ -244,17 +244,40 @@ func (w *world) listed(ctrl string) (map[watchSpec]bool, bool) {
 	return out, true
 }
 
-func (w *world) aliveInstances(ctrl string) int {
+// instances reports the live (started, context not cancelled) and the pending (created, but the engine's
+// goroutine has not called Start yet) controller instances of a name. A pending instance is neither proof of a
+// running controller nor of a leaked one: the goroutine may simply not have been scheduled yet.
+func (w *world) instances(ctrl string) (alive, pending int) {
 	w.mu.Lock()
 	defer w.mu.Unlock()
-	n := 0
-	for _, fc := range w.instances[ctrl] {
-		if !fc.failing && !fc.cancelled() {
-			n++
+	for _, fc := range w.instances_[ctrl] {
+		if fc.failing {
+			continue
+		}
+		fc.mu.Lock()
+		started := fc.started
+		fc.mu.Unlock()
+		switch {
+		case !started:
+			pending++
+		case !fc.cancelled():
+			alive++
 		}
 	}
-	return n
+	return alive, pending
 }
+
+// instancesOK is the property's "running exactly from a successful start until its stop" at the level of
+// controller instances: a running controller has exactly one live instance, a stopped one has none.
+func (w *world) instancesOK(ctrl string, running bool) (bool, int, int) {
+	a, p := w.instances(ctrl)
+	if running {
+		return a <= 1 && a+p >= 1, a, p
+	}
+	return a == 0, a, p
+}
+
+func (w *world) aliveInstances(ctrl string) int { a, _ := w.instances(ctrl); return a }
 
 // settle waits (bounded) for the engine's own goroutines to finish reacting.
 func (w *world) settle(cond func() bool) {
@@ -386,11 +409,9 @@ func TestVerifC13Sequential(t *testing.T) {
 				if ok && fmt.Sprint(sortedSpecs(l)) != fmt.Sprint(sortedSpecs(watches[c])) {
 					t.Fatalf("GetWatches(%s)=%v, model says %v; history %v", c, sortedSpecs(l), sortedSpecs(watches[c]), hist)
 				}
-				if a := w.aliveInstances(c); (running[c] && a != 1) || (!running[c] && a != 0) {
-					w.settle(func() bool { a = w.aliveInstances(c); return (running[c] && a == 1) || (!running[c] && a == 0) })
-					if (running[c] && a != 1) || (!running[c] && a != 0) {
-						t.Fatalf("controller %s: running=%v but %d live (uncancelled) controller instances; history %v", c, running[c], a, hist)
-					}
+				w.settle(func() bool { a, p := w.instances(c); return p == 0 && ((running[c] && a == 1) || (!running[c] && a == 0)) })
+				if ok, a, p := w.instancesOK(c, running[c]); !ok {
+					t.Fatalf("controller %s: running=%v but %d live (started, uncancelled) and %d pending controller instances; history %v", c, running[c], a, p, hist)
 				}
 			}
 			att := attribute(w.cache, w.hits)
@@ -611,14 +632,15 @@ func TestVerifC13Concurrent(t *testing.T) {
 			}
 			w.settle(func() bool {
 				r := w.eng.IsRunning(c)
-				return (!known || r == want) && ((r && w.aliveInstances(c) == 1) || (!r && w.aliveInstances(c) == 0))
+				a, p := w.instances(c)
+				return (!known || r == want) && p == 0 && ((r && a == 1) || (!r && a == 0))
 			})
 			got := w.eng.IsRunning(c)
 			if known && got != want {
 				t.Fatalf("IsRunning(%s)=%v at quiescence, program order of its owning goroutine says %v%s", c, got, want, ctxmsg)
 			}
-			if a := w.aliveInstances(c); (got && a != 1) || (!got && a != 0) {
-				t.Fatalf("controller %s: IsRunning=%v but %d live (started, uncancelled) controller instances%s", c, got, a, ctxmsg)
+			if ok, a, p := w.instancesOK(c, got); !ok {
+				t.Fatalf("controller %s: IsRunning=%v but %d live (started, uncancelled) and %d pending controller instances%s", c, got, a, p, ctxmsg)
 			}
 		}
 		att := attribute(w.cache, w.hits)
@@ -665,7 +687,7 @@ func TestVerifC13Concurrent(t *testing.T) {
 					t.Fatalf("epilogue: after Stop(%s) a live event handler remains: %v%s", c, id, ctxmsg)
 				}
 			}
-			w.settle(func() bool { return w.aliveInstances(c) == 0 })
+			w.settle(func() bool { a, p := w.instances(c); return a == 0 && p == 0 })
 			if w.eng.IsRunning(c) || w.aliveInstances(c) != 0 {
 				t.Fatalf("epilogue: after Stop(%s) IsRunning=%v, live instances=%d%s", c, w.eng.IsRunning(c), w.aliveInstances(c), ctxmsg)
 			}
